@@ -98,6 +98,60 @@ Proof.
   simpl. rewrite (wire_outcome_probes _ _ H1), IH. reflexivity.
 Qed.
 
+(* ---------- wire and error stream together ---------- *)
+Definition error_at (evs : list event) (id : nat) : list gerr :=
+  match evs !! id with Some e => error_of e | None => [] end.
+
+Lemma errdue_errors pre evs :
+  flat_map (error_at (pre ++ evs)) (errdue all_ok all_ok (to_reqs_from (length pre) evs)) = errors evs.
+Proof.
+  revert pre. induction evs as [|e r IH]; intros pre; [reflexivity|].
+  specialize (IH (pre ++ [e])). rewrite <- app_assoc in IH. simpl in IH.
+  rewrite app_length in IH. simpl in IH. replace (length pre + 1) with (S (length pre)) in IH by lia.
+  unfold errdue in *. cbn [to_reqs_from]. rewrite filter_cons.
+  assert (Hat : error_at (pre ++ e :: r) (length pre) = error_of e).
+  { unfold error_at. rewrite lookup_app_r by lia. rewrite Nat.sub_diag. reflexivity. }
+  unfold errors. cbn [flat_map]. fold (errors r). rewrite <- IH.
+  destruct (decide (sent_b all_ok all_ok (length pre, negb (is_probe e)) = false)) as [Hs|Hs].
+  - rewrite fmap_cons. cbn [flat_map fst]. rewrite Hat. reflexivity.
+  - assert (Hp : is_probe e = true).
+    { unfold sent_b, all_ok in Hs. simpl in Hs. destruct (is_probe e); [reflexivity|exfalso; apply Hs; reflexivity]. }
+    destruct e; try discriminate; reflexivity.
+Qed.
+
+(* [ws] = what was handed to the wire, [es] = the causes of the request errors logged by the error
+   drain, in a complete uncancelled run of the pipeline fed with [evs] *)
+Definition run_outcome (evs : list event) (ws : list (ip * Z)) (es : list gerr) : Prop :=
+  exists N cap s,
+    reachable (beh N all_ok all_ok) (init N cap (to_reqs evs)) s /\
+    cancelled s = false /\ quiescent s /\
+    ws = flat_map (frame_at evs) (wire_list s) /\ es = flat_map (error_at evs) (err_list s).
+
+Lemma run_outcome_exact evs ws es : run_outcome evs ws es -> ws ≡ₚ probes evs /\ es ≡ₚ errors evs.
+Proof.
+  intros (N & cap & s & Hr & Hc & Hq & -> & ->). split.
+  - rewrite (pipeline_wire_exact N all_ok all_ok (to_reqs evs) (to_reqs_NoDup evs) cap s Hr Hc Hq).
+    pose proof (due_frames [] evs) as H. simpl in H. unfold to_reqs. rewrite H. reflexivity.
+  - rewrite (pipeline_errors_exact N all_ok all_ok (to_reqs evs) (to_reqs_NoDup evs) cap s Hr Hc Hq).
+    pose proof (errdue_errors [] evs) as H. simpl in H. unfold to_reqs. rewrite H. reflexivity.
+Qed.
+
+Lemma errors_concat (runs : list (list event)) : errors (concat runs) = concat (map errors runs).
+Proof.
+  induction runs as [|r runs IH]; [reflexivity|]. simpl. unfold errors in *. rewrite flat_map_app, IH. reflexivity.
+Qed.
+
+Lemma run_outcomes_concat runs wss ess :
+  Forall3 run_outcome runs wss ess ->
+  concat wss ≡ₚ probes (concat runs) /\ concat ess ≡ₚ errors (concat runs).
+Proof.
+  intros H. rewrite probes_concat, errors_concat.
+  induction H as [|evs ws es runs wss ess H1 _ [IH1 IH2]]; [split; reflexivity|].
+  destruct (run_outcome_exact _ _ _ H1) as [Hw He]. simpl. split.
+  - rewrite Hw, IH1. reflexivity.
+  - rewrite He, IH2. reflexivity.
+Qed.
+
 (* ---------- the composition ---------- *)
 Section Commands.
 Variable table : list row.
